@@ -1572,6 +1572,19 @@ func nonNilSlice(v ssa.Value, depth int) bool {
 		if b, ok := x.Call.Value.(*ssa.Builtin); ok && b.Name() == "append" {
 			return nonNilSlice(x.Call.Args[0], depth+1) || (len(x.Call.Args) > 1 && nonNilSlice(x.Call.Args[1], depth+1))
 		}
+		// a library helper (also an instance of a generic one) every return of which yields a non-nil slice
+		if sc := ir.StaticCallee(x); sc != nil && len(sc.Blocks) > 0 && strings.HasPrefix(ir.PkgPathOf(sc), ir.RootPath) {
+			nRet, all := 0, true
+			ir.EachInstr(sc, func(b *ssa.BasicBlock, _ int, in ssa.Instruction) {
+				if r, ok := in.(*ssa.Return); ok && b != sc.Recover && len(ir.Results(r)) > 0 {
+					nRet++
+					if !nonNilSlice(unspill(ir.Results(r)[0]), depth+1) {
+						all = false
+					}
+				}
+			})
+			return nRet > 0 && all
+		}
 	case *ssa.Phi:
 		for i, e := range x.Edges {
 			if nonNilSlice(e, depth+1) {
